@@ -142,6 +142,7 @@ type Ctx struct {
 	maxKeep  int
 	keepSig  map[string]int
 	trace    *os.File // see traceCase
+	dueCnt   int64
 }
 
 // Mine reports whether case index i belongs to this worker (and was not
@@ -273,6 +274,14 @@ func (c *Ctx) Expired() bool {
 		return true
 	}
 	return false
+}
+
+// Due is the deadline poll for enumeration loops: called once per case of THIS worker,
+// it looks at the clock every mask+1 calls (mask = 2^k - 1).  (Polling on the global case
+// index instead would let only one shard ever look.)
+func (c *Ctx) Due(mask int64) bool {
+	c.dueCnt++
+	return c.dueCnt&mask == 0 && c.Expired()
 }
 
 // Inexhaustive marks the run as not having completed its space.
